@@ -68,6 +68,13 @@ fn positions() -> Vec<(&'static str, &'static str, &'static [&'static str])> {
         ("match scrutinee with type patterns", "match $ { case int: 1, case string: 2, case _: 0 }", &["_"]),
         ("match arm after a type pattern", "match 1 { case int: $, case _: 0 }", &["_"]),
         ("argument of a method on a variable", "recv.call($)", &["recv", "call"]),
+        // the range (or the seed) reads a variable named like the variable the macro declares
+        ("range reading the loop-variable name", "[lv, $].filter(lv, lv > 1)", &["filter", "lv"]),
+        ("map range reading the loop-variable name", "[lv, $].map(lv, lv)", &["map", "lv"]),
+        ("range that is the loop-variable name", "lv.map(lv, [lv, $])", &["map", "lv"]),
+        ("all over a range reading the loop-variable name", "[lv].all(lv, lv == $)", &["all", "lv"]),
+        ("reduce seed reading the accumulator name", "[1, $].reduce(ra, e, ra + e, ra)", &["reduce", "ra", "e"]),
+        ("reduce range reading the element name", "[ra, $].reduce(a, ra, a + ra, 0)", &["reduce", "ra", "a"]),
     ]
 }
 
@@ -86,7 +93,7 @@ fn fillers() -> Vec<(&'static str, &'static [&'static str], &'static [&'static s
 
 fn known_reader(name: &str) -> bool {
     // names the templates read as variables themselves
-    name == "recv"
+    name == "recv" || name == "lv" || name == "ra"
 }
 
 pub struct Space {
